@@ -46,17 +46,17 @@ pub open spec fn continue_untouched(req: HtlcAcceptedRequest, r: HtlcAcceptedRes
 //@ fn htlc_manager::HtlcManager::extract_trampoline_info
 //@ returns r
 //@ implicit [C06,C10]
-//@ ensures#invoice_comes_from_the_metadata_and_parses [C10]
+//@ ensures#invoice_comes_from_the_metadata_and_parses [C10,C13]
       (r is Ok && r->Ok_0 is Some) ==> t_invoice_from_metadata(*req, r->Ok_0->Some_0)
-//@ ensures#signature_valid [C10]
+//@ ensures#signature_valid [C10,C13]
       (r is Ok && r->Ok_0 is Some) ==> r->Ok_0->Some_0.invoice.sig_ok_spec()
-//@ ensures#invoice_hash_equals_htlc_hash [C10,C01]
+//@ ensures#invoice_hash_equals_htlc_hash [C10,C01,C13,C14]
       (r is Ok && r->Ok_0 is Some) ==> r->Ok_0->Some_0.invoice.hash_spec().b@ == req.htlc.payment_hash@
-//@ ensures#payee_is_the_signing_key [C10]
+//@ ensures#payee_is_the_signing_key [C10,C13]
       (r is Ok && r->Ok_0 is Some) ==> r->Ok_0->Some_0.payee == r->Ok_0->Some_0.invoice.payee_spec()
 //@ ensures#policy_is_the_configured_one [C10,C12]
       (r is Ok && r->Ok_0 is Some) ==> r->Ok_0->Some_0.routing_policy == self.params.routing_policy
-//@ ensures#amount_unambiguous [C10,C03]
+//@ ensures#amount_unambiguous [C10,C03,C13,C18]
       (r is Ok && r->Ok_0 is Some) ==> t_amount_rule(*req, r->Ok_0->Some_0)
 //@ end
 
@@ -78,7 +78,7 @@ pub open spec fn continue_untouched(req: HtlcAcceptedRequest, r: HtlcAcceptedRes
 //@ fn htlc_manager::HtlcManager::check_htlc
 //@ returns r
 //@ implicit [C06,C13,C10]
-//@ ensures#trampoline_only_for_ok_info [C10,C01]
+//@ ensures#trampoline_only_for_ok_info [C10,C01,C13,C14]
       r is Trampoline ==> (req.onion.short_channel_id is None
           && tinfo_ok(self.params.routing_policy, *req, *r->Trampoline_0)
           && (has_self_hint(r->Trampoline_0.invoice, self.params.local_pubkey) ==> self.params.allow_self_route_hints))
